@@ -21,7 +21,10 @@ RULE = ("Hypothesis draws DAQmx files: 1-3 segments, 1-3 acquisition buffers of 
         "read_data(scaled=False) / [:], ALL lazy windows of channels with len <= 8, channel and file chunk streams; and, for "
         "EVERY cut inside the last chunk, the truncated file must yield only complete rows of the cut buffer, nothing from "
         "later buffers, identically in lazy and eager mode. Non-trivial: (>=2 channels or >=2 buffers or >=2 chunks) and a "
-        "scaler with non-zero offset.")
+        "scaler with non-zero offset."
+        ' Segments with metadata but without a new object list re-declare channels inside the same buffer geometry; '
+        'the chunk streams of all channels are also advanced in lock step with window reads of other channels in '
+        'between.')
 ASSUMPTIONS = [
     "independent encoder's DAQmx index layout (scaler records of 20 bytes / 17 bytes for digital lines, width vector)",
     "channels whose scalers sit in buffers of different lengths, timestamp scalers and multi-byte digital-line types are "
